@@ -276,6 +276,10 @@ func genFatHistory(r *core.Rng, tier string, idx int) *core.Trace {
 			}
 		}
 	}
+	if r.Chance(12) {
+		// at the end: remove everything, then the volume must take as much as a freshly made one
+		t.Ops = append(t.Ops, core.Op{K: "drainfill"})
+	}
 	return t
 }
 
@@ -647,7 +651,7 @@ func (x *fatRun) dropHandles(p string) {
 func (x *fatRun) step(o core.Op) *core.Violation {
 	m := x.m
 	x.lastErr = false
-	if o.K != "fill" && o.K != "empty" && o.K != "reopen" && o.K != "hread" && o.K != "hclose" {
+	if o.K != "fill" && o.K != "empty" && o.K != "reopen" && o.K != "hread" && o.K != "hclose" && o.K != "drainfill" {
 		x.otherSinceFill = true
 	}
 	lib := "filesystem/fat12"
@@ -947,6 +951,121 @@ func (x *fatRun) step(o core.Op) *core.Violation {
 			x.firstFill, x.emptied, x.otherSinceFill = count, false, false
 		} else {
 			x.firstFill = 0
+		}
+	case "drainfill":
+		// "space released by remove ... can be used again without limit": everything is removed, then the volume is
+		// filled - and so is a freshly made volume of the same geometry. What went in before comes out again, so the
+		// two take the same number of bytes (a FAT32 root directory that has grown keeps its clusters: allowed for).
+		if x.size > 40<<20 {
+			return nil
+		}
+		for _, n := range m.nodes {
+			if n.tainted {
+				return nil
+			}
+		}
+		x.dropHandles("")
+		x.trig, x.locus = "drainfill", lib+".(*FileSystem).Remove"
+		paths := m.paths()
+		sort.Slice(paths, func(i, j int) bool {
+			if a, b := strings.Count(paths[i], "/"), strings.Count(paths[j], "/"); a != b {
+				return a > b
+			}
+			return paths[i] < paths[j]
+		})
+		for _, k := range paths {
+			if k == "" {
+				continue
+			}
+			// the path as created (names keep their case)
+			real := ""
+			for q := k; q != ""; q = parentOf(q) {
+				real = "/" + m.nodes[q].name + real
+			}
+			var err error
+			if v := x.call(func() { err = x.fs.Remove(real) }); v != nil {
+				return v
+			}
+			if err != nil {
+				x.lastErr = true
+				x.resync(real)
+				return nil
+			}
+			delete(m.nodes, k)
+			x.mutated = true
+		}
+		rep := indep.CheckFAT(x.d, x.start, x.size, x.ft)
+		cl := rep.ClusterBytes
+		if cl <= 0 || rep.Clusters <= 0 {
+			return nil
+		}
+		big := (rep.Clusters/40 + 1) * cl
+		fillAll := func(fs fatFS, record bool) (int64, *core.Violation) {
+			var total int64
+			var err error
+			if v := x.call(func() { err = fs.Mkdir("/DRAIN") }); v != nil || err != nil {
+				return -1, v
+			}
+			if record {
+				m.put("/DRAIN", &mnode{dir: true})
+			}
+			seq := 0
+			for _, per := range []int64{big, cl} {
+				for i := 0; i < 700; i++ {
+					seq++
+					p := fmt.Sprintf("/DRAIN/D%05d.DAT", seq)
+					data := core.PatternBytes(uint64(seq)*104729, per)
+					var f filesystem.File
+					var wn int
+					if v := x.call(func() {
+						f, err = fs.OpenFile(p, os.O_CREATE|os.O_RDWR)
+						if err == nil {
+							wn, err = f.Write(data)
+							f.Close()
+						}
+					}); v != nil {
+						return -1, v
+					}
+					if err != nil || wn != len(data) {
+						// the refused file goes away again, so that what it may have taken is free for the smaller ones
+						core.Guard(func() { _ = fs.Remove(p) })
+						if record {
+							x.lastErr = true
+							x.res.Fault("full")
+							x.resync(p)
+						}
+						break
+					}
+					total += per
+					if record {
+						m.put(p, &mnode{data: data})
+						x.mutated = true
+					}
+				}
+			}
+			return total, nil
+		}
+		got, v := fillAll(x.fs, true)
+		if v != nil || got < 0 {
+			return v
+		}
+		d2 := simdisk.New(x.start + x.size + 4096)
+		var fs2 fatFS
+		var err error
+		if v := x.call(func() { fs2, err = fatCreate(d2, x.ft, x.size, x.start, x.lss, x.t.Sg("label"), true) }); v != nil || err != nil {
+			return v
+		}
+		fresh, v := fillAll(fs2, false)
+		if v != nil || fresh < 0 {
+			return v
+		}
+		x.res.Probe("drain-and-fill")
+		slack := int64(0)
+		if x.ft == 32 {
+			slack = (int64(x.opIdx+1)*160/cl + 2) * cl
+		}
+		if got+slack < fresh && x.want("C01.space-not-reusable") {
+			return x.viol("C01.space-not-reusable", fmt.Sprintf("after removing every file and directory the volume took %d bytes before refusing; a freshly made volume of the same geometry takes %d (cluster size %d)", got, fresh, cl))
 		}
 	case "empty":
 		if n := m.get("/FILL"); n == nil || !n.dir {
